@@ -251,6 +251,23 @@ def run(ctx):
                 elif (out == "Some") != fl:
                     okp, whyp = False, ("an element is kept when the filter term %s it and the flag says %s" % (
                         "unifies with" if out == "Some" else "does not unify with", "include" if fl else "exclude"))
+        # what the filter hands back: a list built from exactly the vector the kept elements were pushed into
+        okr, whyr, nret = True, "", 0
+        crate_fns = {x.path for x in prog.lib_bodies()}
+        for p in gps:
+            if p.end != "return" or p.ret is None:
+                continue
+            r = strip(p.ret)
+            if not (r[0] == "agg" and r[2] == "Some"):
+                continue
+            nret += 1
+            pl = strip(dict(r[3]).get("0"))
+            vecs = {strip(e["args"][0]) for e in p.events if e["k"] == "call" and e["callee"].endswith("::push") and not e.get("inlined")}
+            if not (pl[0] == "call" and pl[1] in crate_fns and any(strip(a) in vecs or (not vecs and strip(a)[0] == "call" and
+                                                                                        strip(a)[1].endswith("Vec::<T>::new")) for a in pl[2])):
+                okr, whyr = False, "the filter returns %s, not a list built from the elements it kept" % show(pl)[:70]
+        ctx.ob("R3", "result(%s)" % G.npath, okr and nret > 0, ctx.where(G), whyr or
+               "every Some(..) is builder(vector of kept elements) (%d path(s))" % nret)
         ctx.ob("R3", "polarity(%s)" % G.npath, okp and npush > 0, ctx.where(G), whyp or
                "an element is kept iff (filter term unifies with it) == flag; the kept value is the tested element (%d pushes)" % npush)
         ctx.ob("R3", "binds-nothing(%s)" % G.npath, okb and ntest > 0, ctx.where(G), whyb or
